@@ -359,7 +359,7 @@ impl ChannelManager {
 
     // Admit the new member. A refusal must leave no trace: a channel created by this very request
     // is released again, and a membership whose announcement failed is rolled back.
-    let admission: anyhow::Result<Nid> = 'admission: {
+    let admission: anyhow::Result<()> = 'admission: {
       // Get the NID of the new member.
       let new_member_nid = {
         match oh_behalf_nid {
@@ -411,6 +411,11 @@ impl ChannelManager {
 
       channel_inner.insert_member(new_member_nid.clone());
 
+      // Record the membership in the user's channel index before the announcement can suspend this request:
+      // if the request is cancelled meanwhile (its connection went away), or the joined user's last connection
+      // ends, the disconnect clean-up has to find the membership in order to remove it.
+      in_channels.entry(new_member_nid.username.clone()).or_default().insert(channel_id.clone());
+
       if let Err(e) = channel_inner
         .notify_member_joined(
           &new_member_nid,
@@ -421,25 +426,23 @@ impl ChannelManager {
         .await
       {
         channel_inner.remove_member(&new_member_nid);
+        in_channels.remove_if_mut(&new_member_nid.username, |_, in_channels_set| {
+          in_channels_set.remove(&channel_id);
+          in_channels_set.is_empty()
+        });
         break 'admission Err(e);
       }
 
-      Ok(new_member_nid)
+      Ok(())
     };
 
-    let new_member_nid = match admission {
-      Ok(new_member_nid) => new_member_nid,
-      Err(e) => {
-        if as_owner {
-          channels.remove(&handler);
-        }
-        return Err(e);
-      },
-    };
+    if let Err(e) = admission {
+      if as_owner {
+        channels.remove(&handler);
+      }
+      return Err(e);
+    }
     drop(channel_inner);
-
-    // Update the list of channels the connection is a member of.
-    in_channels.entry(new_member_nid.username.clone()).or_default().insert(channel_id.clone());
 
     // Send response back to the client.
     transmitter.send_message(Message::JoinChannelAck(JoinChannelAckParameters {
